@@ -153,7 +153,11 @@ func run(env *lidx.Env, cfgName string, siblings []int) {
 	}
 	addrs := append([]string{}, lidx.Addrs[:]...)
 	addrs = append(addrs, address.ExecAddress("none"), address.ExecAddress("manage"), address.ExecAddress("coins"), vlx.Addr())
-	specs := append(lidx.Alphabet(), lidx.Synthetic()...)
+	specs := lidx.Alphabet()
+	if !r.Quick() {
+		specs = lidx.AllBlocks(3) // every multiset of <= 3 transactions over ten kinds
+	}
+	specs = append(specs, lidx.Synthetic()...)
 	for k := 0; k <= 2; k++ {
 		for _, si := range siblings {
 			F := forkAt(k)
